@@ -1,4 +1,5 @@
 import MpVerif.C14.LemmasMain
+import MpVerif.Gen.SolGuards
 /-!
 # C14 — SOL reader is total and memory-safe on arbitrary files: property theorems
 
@@ -266,6 +267,229 @@ theorem C14_counterexample_badoptions_no_message :
     (readSol true false 0 0 ⟨1, .all, .all, .all⟩ cexOpts).hasMsg = false ∧
     (readSol true true 0 0 ⟨1, .all, .all, .all⟩ cexOpts).hasMsg = true := by decide
 
+/-! ## the `Long Options[14]` array (statement audit, ROUND 4)
+
+The model indexes the options with the totalised `List.getD`; the real code indexes a fixed array `Long Options[14]`.  These theorems
+state the guard the real code relies on: whenever an options block is accepted (text or binary), exactly `nOpts + 5 ≤ 14` entries were
+stored, so `z[1] = Options[nOpts+2]` and `z[3] = Options[nOpts+4]` (and every index the reader writes) are inside the array and inside the
+model's list — `getD` never falls back to its default. -/
+
+theorem readIntLines_length {k : Nat} {inp r : Bytes} {vs : List Int} (h : readIntLines k inp = .ok (vs, r)) : vs.length = k := by
+  induction k generalizing inp vs r with
+  | zero => simp [readIntLines] at h; rw [h.1]; rfl
+  | succ k ih =>
+    unfold readIntLines at h
+    split at h
+    · simp at h
+    · split at h
+      · simp at h
+      · rename_i v r1 _ vs' r2 h2
+        simp at h
+        rw [← h.1]; simp [ih h2]
+
+theorem optHeader_bound {o0 o2 : Int} {n : Nat} {vb : Bool} (h : optHeader o0 o2 = some (n, vb)) : 1 ≤ n ∧ n ≤ 9 := by
+  unfold optHeader at h
+  split at h
+  · simp at h
+  · split at h <;> simp at h <;> omega
+
+theorem C14_options_array_bound_text (inp r : Bytes) (o : Opts) (h : optsText inp = .ok (o, r)) :
+    o.opts.length = o.nOpts + 5 ∧ o.nOpts + 5 ≤ 14 ∧ 1 ≤ o.nOpts := by
+  unfold optsText at h
+  split at h
+  · simp at h
+  · rename_i o4 r1 h4
+    have l4 := readIntLines_length h4
+    split at h
+    · simp at h
+    · rename_i nOpts vb hh
+      have hb := optHeader_bound hh
+      split at h
+      · simp at h
+      · rename_i more r2 hm
+        have lm := readIntLines_length hm
+        by_cases hv : vb = true
+        · simp only [hv, if_true] at h
+          split at h
+          · simp at h
+          · split at h
+            · simp at h
+            · simp at h; obtain ⟨h1, _⟩ := h; subst h1; simp [l4, lm]; omega
+        · simp only [hv] at h
+          simp at h; obtain ⟨h1, _⟩ := h; subst h1; simp [l4, lm]; omega
+
+/-- … and every later use of the options (`z[1]`, `z[3]`) reads an entry that was stored -/
+theorem C14_options_index_in_bounds (inp r : Bytes) (o : Opts) (h : optsText inp = .ok (o, r)) (i : Nat) (hi : i ≤ 3) :
+    o.nOpts + 1 + i < o.opts.length := by
+  have := C14_options_array_bound_text inp r o h; omega
+
+/-! ## translator ties (ROUND 4)
+
+`MpVerif.Gen.SolGuards` is regenerated on every run by `translators/gen_solguards.py` from the text of
+`nl-writer2/include/mp/sol-reader2.hpp` in the tree under test (verbatim slices through clang's typed AST and `tr_cint`).
+The theorems below prove the hand model's integer decisions equal to the generated definitions for all arguments, so the
+property theorems above speak about the code as it is now: an edit of one of these decisions breaks a proof obligation. -/
+section gen
+open MpVerif.CSem MpVerif.Gen.SolGuards
+
+/-- the 'Wrong NumVars / NumAlgCons' checks: generated code = the guard of `preCheck` -/
+theorem C14_gen_count_guard (z3 z1 nv nc : Int) :
+    count_guard z3 z1 nv nc = .ret (if (z3 > nv ∨ z3 < 0) ∨ (z1 > nc ∨ z1 < 0) then 3 else 0) := by
+  by_cases h1 : z3 > nv <;> by_cases h2 : z3 < 0 <;> by_cases h3 : z1 > nc <;> by_cases h4 : z1 < 0 <;>
+    simp [count_guard, cor, cgt, clt, tobool, h1, h2, h3, h4]
+
+/-- … and `preCheck` (text format, options accepted by the handler) lets a file pass exactly when the generated checks return 0 -/
+theorem C14_gen_preCheck (fm : Bool) (nVars nCons : Nat) (pol : Policy) (o : Opts) (inp : Bytes) (hrv : pol.optRv = 0) :
+    preCheck fm nVars nCons pol false (some o) inp =
+      (if count_guard (o.z 3) (o.z 1) nVars nCons = .ret 0 then .ok ((o.z 1).toNat, (o.z 3).toNat, inp) else .error (err .badFormat)) := by
+  rw [C14_gen_count_guard]
+  unfold preCheck
+  simp only [hrv, ne_eq, not_true_eq_false, if_false, Bool.false_eq_true]
+  by_cases h3 : o.z 3 > nVars ∨ o.z 3 < 0
+  · simp [h3]
+  · by_cases h1 : o.z 1 > nCons ∨ o.z 1 < 0
+    · simp [h3, h1]
+    · simp [h3, h1]
+
+theorem arith_tI' {r : Int} (h1 : -2147483648 ≤ r) (h2 : r ≤ 2147483647) : arith tI r = .ret r := by
+  simp [arith, tI, CTy.lo, CTy.hi, h1, h2]
+
+/-- `sufheadcheck`: generated code (incl. the size computed for `xp.resize`, signed overflow = `ub`) = the model's `sufheadcheck true` -/
+theorem C14_gen_sufheadcheck (kind n namelen tablen tablines : Int)
+    (hk : -2147483648 ≤ kind ∧ kind ≤ 2147483647) (hn : -2147483648 ≤ n ∧ n ≤ 2147483647)
+    (hl : -2147483648 ≤ namelen ∧ namelen ≤ 2147483647) (ht : -2147483648 ≤ tablen ∧ tablen ≤ 2147483647)
+    (hs : -2147483648 ≤ tablines ∧ tablines ≤ 2147483647) :
+    MpVerif.Gen.SolGuards.sufheadcheck kind n namelen tablen tablines =
+      .ret (if MpVerif.C14.sufheadcheck true kind n namelen tablen tablines = .ok then 0 else 1) := by
+  unfold MpVerif.Gen.SolGuards.sufheadcheck MpVerif.C14.sufheadcheck
+  by_cases c1 : kind < 0 ∨ kind > 15 ∨ n < 0 ∨ namelen < 2 ∨ tablen < 0
+  · have : (kind < 0) ∨ (kind > 15) ∨ (n < 0) ∨ (namelen < 2) ∨ (tablen < 0) := c1
+    by_cases a : kind < 0 <;> by_cases b : kind > 15 <;> by_cases c : n < 0 <;> by_cases d : namelen < 2 <;> by_cases e : tablen < 0 <;>
+      simp [cor, cand, clt, cgt, tobool, a, b, c, d, e, c1] <;> omega
+  · have a : ¬ kind < 0 := by omega
+    have b : ¬ kind > 15 := by omega
+    have c : ¬ n < 0 := by omega
+    have d : ¬ namelen < 2 := by omega
+    have e : ¬ tablen < 0 := by omega
+    by_cases c2 : namelen > 268435455 ∨ tablen > 268435455
+    · by_cases f : namelen > 268435455 <;> by_cases g : tablen > 268435455 <;>
+        simp [cor, cand, clt, cgt, tobool, a, b, c, d, e, c1, c2, f, g] <;> omega
+    · have f : ¬ namelen > 268435455 := by omega
+      have g : ¬ tablen > 268435455 := by omega
+      have r1 : arith tI (tablen + 1) = .ret (tablen + 1) := arith_tI' (by omega) (by omega)
+      have r2 : arith tI (2 * namelen) = .ret (2 * namelen) := arith_tI' (by omega) (by omega)
+      have r3 : arith tI (tablen + 2 * namelen) = .ret (tablen + 2 * namelen) := arith_tI' (by omega) (by omega)
+      have r4 : arith tI (tablen + 2 * namelen + 6) = .ret (tablen + 2 * namelen + 6) := arith_tI' (by omega) (by omega)
+      by_cases t0 : tablen = 0
+      · subst t0
+        simp [cor, cand, clt, cgt, tobool, a, b, c, d, c1, c2, f, cadd, cmul, r2, arith_tI' (r := 2 * namelen + 6) (by omega) (by omega),
+          arith_tI' (r := 0 + 2 * namelen) (by omega) (by omega)]
+        omega
+      · have m1 : ¬ (tablen ≠ 0 ∧ tablen + 1 > 2147483647) := by omega
+        have m3 : ¬ (2 * namelen > 2147483647 ∨ tablen + 2 * namelen > 2147483647 ∨ tablen + 2 * namelen + 6 > 2147483647) := by omega
+        by_cases u : tablines > tablen + 1 <;> by_cases v : tablines < 1 <;>
+          simp [cor, cand, clt, cgt, tobool, a, b, c, d, e, c1, c2, f, g, t0, cadd, cmul, r1, r2, r3, r4, u, v, m1, m3] <;>
+          (try (split <;> simp)) <;> (try omega)
+
+/-- one digit of `Lget`: generated code = the step of the model's `lgetDigits true` -/
+theorem C14_gen_lget_step (L c : Int) (hL : 0 ≤ L) (hc : 48 ≤ c ∧ c ≤ 57) :
+    lget_step L c = .ret (if L > 214748363 then -1 else 10 * L + (c - 48)) := by
+  have c48 : conv tI 48 = 48 := by decide
+  by_cases h : L > 214748363
+  · simp [lget_step, cgt, h, cneg, arith_tI' (r := -1) (by omega) (by omega)]
+  · have r1 : arith tI (10 * L) = .ret (10 * L) := arith_tI' (by omega) (by omega)
+    have r2 : arith tI (c - 48) = .ret (c - 48) := arith_tI' (by omega) (by omega)
+    have r3 : arith tI (10 * L + (c - 48)) = .ret (10 * L + (c - 48)) := arith_tI' (by omega) (by omega)
+    simp [lget_step, cgt, h, cmul, csub, cadd, c48, r1, r2, r3]
+
+theorem C14_gen_lget_step_model (acc c : Nat) (cs : Bytes) (hc : isDigit c = true) :
+    lgetDigits true (c :: cs) acc =
+      (if lget_step acc c = .ret (-1) then .fail else lgetDigits true cs (10 * acc + (c - 48))) := by
+  have hd : 48 ≤ c ∧ c ≤ 57 := by simpa [isDigit] using hc
+  rw [C14_gen_lget_step acc c (by omega) (by omega)]
+  simp only [lgetDigits, hc, if_true]
+  by_cases h : acc > 214748363
+  · have : (acc : Int) > 214748363 := by omega
+    simp [h, this]
+  · have : ¬ (acc : Int) > 214748363 := by omega
+    have hne : ¬ (10 * (acc : Int) + ((c : Int) - 48) = -1) := by omega
+    simp [h, this, hne]
+
+/-- option count 3..9 and the vbtol flag: both copies of the check (text and binary branch) = the model's `optHeader` -/
+theorem C14_gen_opts_header (o0 o2 : Int) (h : -2147483648 ≤ o0 ∧ o0 ≤ 2147483647) :
+    opts_header_text o0 o2 = opts_header_bin o0 o2 ∧
+    opts_header_text o0 o2 = .ret (match optHeader o0 o2 with
+      | none => -1
+      | some (nOpts, vb) => 2 * ((nOpts : Int) + 5) + (if vb then 1 else 0)) := by
+  unfold optHeader
+  by_cases c1 : o0 < 3 ∨ o0 > 9
+  · by_cases a : o0 < 3 <;> by_cases b : o0 > 9 <;>
+      simp [opts_header_text, opts_header_bin, cor, clt, cgt, tobool, a, b, c1, cneg, arith_tI' (r := -1) (by omega) (by omega)] <;> omega
+  · have a : ¬ o0 < 3 := by omega
+    have b : ¬ o0 > 9 := by omega
+    by_cases v : o2 = 3
+    · have e1 : arith tI (o0 - 2) = .ret (o0 - 2) := arith_tI' (by omega) (by omega)
+      have e2 : arith tI (o0 - 2 + 5) = .ret (o0 - 2 + 5) := arith_tI' (by omega) (by omega)
+      have e3 : arith tI ((o0 - 2 + 5) * 2) = .ret ((o0 - 2 + 5) * 2) := arith_tI' (by omega) (by omega)
+      have e4 : arith tI ((o0 - 2 + 5) * 2 + 1) = .ret ((o0 - 2 + 5) * 2 + 1) := arith_tI' (by omega) (by omega)
+      simp [opts_header_text, opts_header_bin, cor, clt, cgt, ceq, tobool, a, b, c1, v, csub, cadd, cmul, e1, e2, e3, e4]
+      omega
+    · have e2 : arith tI (o0 + 5) = .ret (o0 + 5) := arith_tI' (by omega) (by omega)
+      have e3 : arith tI ((o0 + 5) * 2) = .ret ((o0 + 5) * 2) := arith_tI' (by omega) (by omega)
+      have e4 : arith tI ((o0 + 5) * 2 + 0) = .ret ((o0 + 5) * 2 + 0) := arith_tI' (by omega) (by omega)
+      simp [opts_header_text, opts_header_bin, cor, clt, cgt, ceq, tobool, a, b, c1, v, csub, cadd, cmul, e2, e3, e4]
+      omega
+
+/-- reader: `SR.h.kind & 4` selects the real-valued suffix reader exactly when the model's `sufKind` says `dpair`
+(kinds that pass `sufheadcheck` are 0..15) -/
+theorem C14_gen_suffix_is_real : ∀ k : Fin 16,
+    suffix_is_real_bin (k.val : Int) = .ret (if sufKind (k.val : Int) = .dpair then 1 else 0) ∧
+    suffix_is_real_text (k.val : Int) = .ret (if sufKind (k.val : Int) = .dpair then 1 else 0) := by decide
+
+theorem cband_three (x : Nat) (h : x < 4294967296) : cband (x : Int) 3 = ((x % 4 : Nat) : Int) := by
+  unfold cband sx64
+  have h1 : ((x : Int) % 18446744073709551616).toNat = x := by omega
+  have h2 : ((3 : Int) % 18446744073709551616).toNat = 3 := by decide
+  rw [h1, h2]
+  have h3 : x &&& 3 = x % 4 := Nat.and_two_pow_sub_one_eq_mod x 2
+  rw [h3]
+  have : ¬ (x % 4 ≥ 9223372036854775808) := by omega
+  simp [this]
+
+/-- binary: `L1 = j * sizeof(real)` in `uiolen` arithmetic = the model's `recLen` (every count is a non-negative `int`) -/
+theorem C14_gen_rec_len (j : Nat) (h : j ≤ 2147483647) : rec_len (j : Int) = .ret ((recLen j : Nat) : Int) := by
+  simp only [rec_len, cmul, arith, tUL, CTy.wrap, conv, tU, recLen, u32]
+  simp
+  omega
+
+/-- binary: the test that a record announces an Options block = the model's `isOptsRecord` (`L` is a `uiolen`) -/
+theorem C14_gen_is_opts_record (L : Nat) (h : L < 4294967296) :
+    is_opts_record (L : Int) = .ret (if isOptsRecord L then 1 else 0) := by
+  have k : ∃ m : Nat, m = u32 (L + 4294967296 - 39) := ⟨_, rfl⟩
+  obtain ⟨m, hm⟩ := k
+  have hlt : m < 4294967296 := by unfold u32 at hm; omega
+  have e5 : conv tU (CTy.wrap tUL (conv tUL (L : Int) - CTy.wrap tUL (CTy.wrap tUL (conv tUL 8 * 4) + conv tUL 7))) = (m : Int) := by
+    unfold u32 at hm
+    simp [conv, CTy.wrap, tUL, tU]; omega
+  have cm : conv tUL (m : Int) = (m : Int) := by simp [conv, CTy.wrap, tUL]; omega
+  have c24 : CTy.wrap tUL (CTy.wrap tUL (conv tUL 4 * 4) + 8) = 24 := by decide
+  have c3 : CTy.wrap tUL (4 - conv tUL 1) = 3 := by decide
+  unfold isOptsRecord
+  rw [← hm]
+  have sU : tUL.signed = false := rfl
+  simp only [is_opts_record, cmul, cadd, csub, arith, sU, Bool.false_eq_true, if_false, Outcome.bind_ret]
+  rw [e5, cm, c24, c3, cband_three m hlt]
+  by_cases h1 : m ≤ 24
+  · have h1' : (m : Int) ≤ 24 := by omega
+    by_cases h2 : m % 4 = 0
+    · simp [cand, cle, cnot, tobool, h1, h1', h2, conv, CTy.wrap, tI]
+    · have this' : ¬ ((m : Int) % 4 = 0) := by omega
+      simp [cand, cle, cnot, tobool, h1, h1', h2, this', conv, CTy.wrap, tI]
+  · have h1' : ¬ (m : Int) ≤ 24 := by omega
+    simp [cand, cle, h1, h1', conv, CTy.wrap, tI]
+
+end gen
+
 /-! ## non-vacuity: well-formed files of both formats are read completely -/
 
 /-- `hello\n\nOptions\n3\n0\n1\n0\n1\n1\n2\n2\n0.5\n1\n2\nobjno 0 100\nsuffix 0 1 4 0 0\nfoo\n1 3\n` -/
@@ -289,5 +513,29 @@ example : readSol false false 3 0 readAll [109, 10, 10, 49, 10, 50, 10] =
     ⟨.earlyEof, [.msg [109, 10] 0, .primal false ⟨3, [⟨0, [49]⟩, ⟨0, [50]⟩], .earlyEof, 0⟩], true⟩ := by decide
 
 example : SanePol readAll := ⟨trivial, trivial, trivial⟩
+/-- a handler that reads everything / stops silently after 2 values / rejects a suffix after 1 value with Bad_Suffix -/
+example : SanePol ⟨0, .whileNz, .some 2, .someErr 1 .badSuffix⟩ := ⟨trivial, trivial, ⟨rfl, by decide⟩⟩
+
+/-- hypotheses of `C14_failure_reported` on a concrete run: the truncated primal vector is the last event, the result is EarlyEOF -/
+example : ∃ pre e post v, (readSol true true 3 0 readAll [109, 10, 10, 49, 10, 50, 10]).evs = pre ++ e :: post ∧ e.vec? = some v ∧ ¬ v.complete ∧
+    post = [] ∧ (readSol true true 3 0 readAll [109, 10, 10, 49, 10, 50, 10]).code = .earlyEof :=
+  ⟨[.msg [109, 10] 0], .primal false ⟨3, [⟨0, [49]⟩, ⟨0, [50]⟩], .earlyEof, 0⟩, [], ⟨3, [⟨0, [49]⟩, ⟨0, [50]⟩], .earlyEof, 0⟩,
+    by decide, rfl, by simp [VecOut.complete], rfl, by decide⟩
+
+/-- hypotheses of `C14_hostile_counts_rejected`: an options block stating −1 dual values for a problem with 2 constraints -/
+example : (⟨[3, 1, 1, 0, 2, -1, 2, 2], 3, false, []⟩ : Opts).z 1 < 0 ∧ (⟨[3, 1, 1, 0, 2, -1, 2, 2], 3, false, []⟩ : Opts).z 3 ≤ 2 := by
+  unfold Opts.z; decide
+
+/-- hypotheses of `C14_options_array_bound_text`: an accepted options block with the maximum of 9 options fills exactly `Options[0..13]` -/
+example : ∃ o r, optsText (str "9\n1\n1\n1\n1\n1\n1\n1\n1\n1\n0\n0\n0\n0\nrest") = .ok (o, r) ∧ o.opts.length = 14 ∧ r = str "rest" :=
+  ⟨⟨[9, 1, 1, 1, 1, 1, 1, 1, 1, 1, 0, 0, 0, 0], 9, false, []⟩, str "rest", by rfl, rfl, rfl⟩
+
+/-- the generated decisions on concrete arguments (both directions of each guard) -/
+example : MpVerif.Gen.SolGuards.sufheadcheck 0 1 4 8 2 = .ret 0 ∧ MpVerif.Gen.SolGuards.sufheadcheck 0 1 4 8 10 = .ret 1 ∧
+    MpVerif.Gen.SolGuards.sufheadcheck 16 1 4 0 0 = .ret 1 ∧ MpVerif.Gen.SolGuards.sufheadcheck 0 1 300000000 0 0 = .ret 1 := by decide
+example : MpVerif.Gen.SolGuards.count_guard 2 (-1) 2 2 = .ret 3 ∧ MpVerif.Gen.SolGuards.count_guard 2 2 2 2 = .ret 0 ∧
+    MpVerif.Gen.SolGuards.lget_step 214748364 57 = .ret (-1) ∧ MpVerif.Gen.SolGuards.lget_step 214748363 57 = .ret 2147483639 := by decide
+example : MpVerif.Gen.SolGuards.is_opts_record 39 = .ret 1 ∧ MpVerif.Gen.SolGuards.is_opts_record 40 = .ret 0 ∧
+    MpVerif.Gen.SolGuards.is_opts_record 67 = .ret 0 ∧ MpVerif.Gen.SolGuards.rec_len 536870912 = .ret 0 := by decide
 
 end MpVerif.C14
